@@ -217,3 +217,29 @@ fn c08_rect_from_bounds() {
     assert!(r.contains(x, y) == (h.contains(&x) && v.contains(&y)));
     kani::cover!(matches!(h.0, Bound::Excluded(_)) && matches!(v.1, Bound::Included(_)) && r.contains(x, y), "excluded start, included end");
 }
+
+/// First-person camera (cfg libm: sin/cos are libm's software routines, which the engine
+/// evaluates on the *concrete* heading table below; position and displacement are symbolic):
+/// translate(delta) moves the camera by delta.y straight up, by delta.z along the *horizontal*
+/// heading (cos az, 0, sin az) whatever the pitch, and by |delta.x| along the horizontal axis
+/// perpendicular to it.
+#[cfg(feature = "cfg-libm")]
+fn first_person_translate(az: f32, cx: f32, sz: f32, alt: f32) {
+    use re::math::angle::{spherical, turns};
+    use re::math::vec::Vec3;
+    use re::render::cam::FirstPerson;
+    let d: [f32; 6] = kani::any();
+    kani::assume(d.iter().all(|v| v.is_finite() && v.abs() <= 1024.0));
+    let pos: Vec3 = vec3(d[0], d[1], d[2]);
+    let mut fp = FirstPerson { pos, heading: spherical(1.0, turns(az), turns(alt)) };
+    fp.translate(vec3(d[3], d[4], d[5]));
+    let m = fp.pos - pos;
+    let tol = 1e-2;
+    assert!((m.y() - d[4]).abs() <= tol);
+    assert!((m.x() * cx + m.z() * sz - d[5]).abs() <= tol);
+    assert!(((m.x() * sz - m.z() * cx).abs() - d[3].abs()).abs() <= tol);
+    kani::cover!(d[5] > 100.0 && d[3] < -100.0, "forward and sideways");
+}
+#[cfg(feature = "cfg-libm")] #[kani::proof] #[kani::unwind(8)] fn c08_first_person_translate_level() { first_person_translate(0.125, 0.70710678, 0.70710678, 0.0); }
+#[cfg(feature = "cfg-libm")] #[kani::proof] #[kani::unwind(8)] fn c08_first_person_translate_up() { first_person_translate(0.25, 0.0, 1.0, 1.0 / 12.0); }
+#[cfg(feature = "cfg-libm")] #[kani::proof] #[kani::unwind(8)] fn c08_first_person_translate_down() { first_person_translate(-0.375, -0.70710678, -0.70710678, -1.0 / 6.0); }
